@@ -133,6 +133,46 @@ class Shadow:
         return i
 
 
+class ShortReadRaw(io.RawIOBase):
+    """Read-only raw file whose every read returns at most `chunk` bytes."""
+
+    def __init__(self, fio: io.FileIO, chunk: int) -> None:
+        super().__init__()
+        self._fio = fio
+        self._chunk = max(1, chunk)
+        self.name = fio.name
+        self.mode = "rb"
+
+    def readable(self) -> bool:
+        return True
+
+    def seekable(self) -> bool:
+        return True
+
+    def seek(self, pos: int, whence: int = 0) -> int:
+        return self._fio.seek(pos, whence)
+
+    def tell(self) -> int:
+        return self._fio.tell()
+
+    def fileno(self) -> int:
+        return self._fio.fileno()
+
+    def readinto(self, b: Any) -> int:
+        mv = memoryview(b)
+        data = self._fio.read(min(len(mv), self._chunk))
+        n = len(data or b"")
+        mv[:n] = data or b""
+        return n
+
+    def close(self) -> None:
+        if not self.closed:
+            try:
+                self._fio.close()
+            finally:
+                super().close()
+
+
 class SimRaw(io.RawIOBase):
     """Our raw layer under the stdlib's real BufferedWriter/TextIOWrapper."""
 
@@ -408,10 +448,27 @@ class Disk:
             )
         writing = any(c in mode for c in "wax+")
         if not writing:
+            rf = None
             if self.journal_reads:
-                self.op("open_r", p)
+                rf = self.op("open_r", p)
             elif self.dead:
                 raise SimCrash()
+            if rf is not None and rf.get("kind") == "short_read" and opener is None:
+                # short reads: every raw read() of this file returns at most `bytes` bytes (legal for
+                # raw I/O; the stdlib's buffered / text layers and readall() loop, a single unbuffered
+                # read(n) that is taken for the whole file does not)
+                self.fired["short_read"] += 1
+                raw = ShortReadRaw(io.FileIO(file, "r"), int(rf.get("bytes", 16)))
+                if buffering == 0:
+                    if "b" not in mode:
+                        raise ValueError("can't have unbuffered text I/O")
+                    return raw
+                buf = io.BufferedReader(raw, self.bufsize if buffering < 0 else max(buffering, 1))
+                if "b" in mode:
+                    return buf
+                text = io.TextIOWrapper(buf, encoding, errors, newline)
+                text.mode = mode
+                return text
             return _real["open"](
                 file, mode, buffering, encoding, errors, newline, closefd, opener
             )
